@@ -219,6 +219,11 @@ class Ctx:
                     break
                 pids.update(getattr(ex, "_processes", {}) or {})
                 self._take(dump, fails, err)
+            else:
+                # every shard returned: a regular shutdown (no manager thread is left behind to trip over closed pipes
+                # when the interpreter exits)
+                ex.shutdown(wait=True)
+                return
         finally:
             ex.shutdown(wait=False, cancel_futures=True)
             for p in list(getattr(ex, "_processes", {}) or {}):
